@@ -1351,3 +1351,18 @@ MUTANTS += [
 BENIGN += [
     {"name": "species-order-by-name-then-charge", "file": SP, "old": _LT, "new": "            return (self.name, self.charge) < (o.name, o.charge)\n"},
 ]
+
+# ---- R3: fields of a dataclass are per-instance; a mutable bound in a plain class body is shared ------------------------------------
+_TALLY_DC = ("from dataclasses import field\n\n\n@dataclass\nclass _Tally:\n    n: int = 0\n    names: list = field(default_factory=list)\n\n"
+             "    def note(self, name: str) -> None:\n        self.n += 1\n        self.names.append(name)\n\n\n")
+_TALLY_SHARED = ("class _Tally:\n    names = []\n\n    def note(self, name: str) -> None:\n        self.names.append(name)\n\n\n")
+BENIGN += [
+    {"name": "dataclass-accumulator-local-to-render", "edits": [
+        {"file": TL, "old": _TL_CLS, "new": _TALLY_DC + _TL_CLS},
+        {"file": TL, "old": _RENDER_HEAD, "new": _RENDER_HEAD + "        tally = _Tally()\n        tally.note(proj_name)\n"}]},
+]
+MUTANTS += [
+    {"name": "accumulator-list-bound-in-the-class-body", "edits": [
+        {"file": TL, "old": _TL_CLS, "new": _TALLY_SHARED + _TL_CLS},
+        {"file": TL, "old": _RENDER_HEAD, "new": _RENDER_HEAD + "        tally = _Tally()\n        tally.note(proj_name)\n"}], "rules": ["R3"]},
+]
